@@ -184,6 +184,9 @@ def run_check(prop, tier="quick", seed=0, replay=None):
             broken.append(f"pregen failed: {e}")
     try:
         binary = gobuild.build("harness")
+        if gobuild.last_shim_notes:
+            broken.append("export shims whose target identifier no longer exists in the tree (stubbed so that the harness still builds): "
+                          + ", ".join(gobuild.last_shim_notes))
     except gobuild.BuildError as e:
         broken.append(f"harness build against the current tree failed: {e}: {e.output[-1500:]}")
 
@@ -277,6 +280,15 @@ def run_check(prop, tier="quick", seed=0, replay=None):
             try:
                 prop.lean_out = res["lean"]     # the proved model's answers, for oracles that use them as reference
                 vs = prop.oracle(st.name, ops, res["go"])
+                # an operation the implementation never came back from (harness watchdog): a deadlock or an endless loop
+                # in the code under test - every property presupposes that its operations terminate
+                for k, gl in enumerate(res["go"]):
+                    if gl == "hang:watchdog" and k < len(ops):
+                        s0, e0 = case_of(ops, k)
+                        vs.append(Violation(f"the implementation did not return from `{ops[k][:160]}` (deadlock or endless loop; the model answers "
+                                            f"`{(res['lean'][k] if k < len(res['lean']) else '?')[:80]}`)", stream=st.name, case_ops=ops[s0:k + 1],
+                                            go=res["go"][s0:k + 1]))
+                        break
                 nontrivial |= prop.nontrivial(st.name, ops, res["go"])
             except Exception as e:
                 vs = []
